@@ -5,6 +5,7 @@ The driver generates (field, value) pairs, runs `PRINT USING` on the real interp
 with the EXACT decimal expansion of the value (decoded from the MBF bytes the interpreter reports for the variable).
 Whether the text is right is decided by TLC alone."""
 import os, json, time
+from concurrent.futures import ThreadPoolExecutor
 from ..session import Sess
 from .. import core
 
@@ -327,30 +328,43 @@ def run(ctx):
 
     events, info = [], []
     scale = float(os.environ.get('VERIF_C08_SCALE', '1'))
-    per_shape = ctx.pick(10, 60)
-    n_long = int(ctx.pick(7000, 150000) * scale)
-    n_str = int(ctx.pick(2500, 40000) * scale)
-    n_line = int(ctx.pick(2500, 40000) * scale)
-    chunk = 30000
+    per_shape = ctx.pick(10, 30)
+    n_long = int(ctx.pick(7000, 80000) * scale)
+    n_str = int(ctx.pick(2500, 20000) * scale)
+    n_line = int(ctx.pick(2500, 20000) * scale)
+    chunk = 8000
     d = Driver(ctx)
     vals = Values(d)
     cur = ['']
     internal = [0]
     classes = {}
 
+    pool = ThreadPoolExecutor(max_workers=2)
+    pending = []
+
+    def judge(evs, infs, no):
+        return evs, infs, ctx.validate('C08_Trace', evs, name='c08_%d' % no)
+
     def flush():
+        """Hand the recorded events to TLC (runs beside the driver); verdicts are collected by settle()."""
         if not events:
             return
-        verdicts = ctx.validate('C08_Trace', events)
-        ctx.cov['traces_validated_against_impl'] += 1
-        for (i, clause) in verdicts:
-            e, inf = events[i - 1], info[i - 1]
-            key = {'clause': clause, 'op': e['op'], 'k': e['k'], 'field': inf['field']}
-            key.update(inf['key'])
-            ctx.reject('C08 %s: PRINT USING "%s"; %s -> %r' % (clause, inf['field'], inf['value'], bytes(e['out'])),
-                       key=key, data={'event': e})
+        pending.append(pool.submit(judge, list(events), list(info), len(pending)))
         del events[:]
         del info[:]
+
+    def settle():
+        for fut in pending:
+            evs, infs, verdicts = fut.result()
+            ctx.cov['traces_validated_against_impl'] += 1
+            for (i, clause) in verdicts:
+                e, inf = evs[i - 1], infs[i - 1]
+                key = {'clause': clause, 'op': e['op'], 'k': e['k'], 'field': inf['field']}
+                key.update(inf['key'])
+                ctx.reject('C08 %s: PRINT USING "%s"; %s -> %r' % (clause, inf['field'], inf['value'], bytes(e['out'])),
+                           key=key, data={'event': e})
+        del pending[:]
+        pool.shutdown()
 
     def guarded(body):
         try:
@@ -534,6 +548,7 @@ def run(ctx):
     flush()
     ctx.cov['format_string_events'] = n_line
     d.s.close()
+    settle()
 
     ctx.cov['event_classes'] = dict(sorted(classes.items()))
     ctx.cov['internal_errors'] = internal[0]
